@@ -17,7 +17,7 @@ from vlib.core import hexs, unhex, VERIF, CheckError
 from vlib.tr_life import tr_cfglife, tr_resid
 from vlib.tr_wrapper import tr_wrapper, tr_calls
 from vlib.syslevel import call_line, run_many
-from vlib.lifelib import build_both, run_life, phases, addr2line, gen_config, coq_query, SINKS, ENVLINE, FILTERS, OUTPUTS
+from vlib.lifelib import build_both, run_life, phases, addr2line, site_functions, gen_config, coq_query, SINKS, ENVLINE, FILTERS, OUTPUTS
 
 STATE_KEYS = ("fds", "cwd", "umask", "sigmask", "handlers", "env")
 DS_ARGS = {"env": "HOME", "cgroup": "name=systemd", "snoopy_literal": "lit", "datetime": "%Y-%m-%d"}
@@ -106,6 +106,17 @@ def judge(run, lib, r, first_checked, label, ini, fault):
     return finds, n
 
 
+def observed_sites(r):
+    """(kind, call site) of every allocation made from the library and (when traced) every libc-boundary call of the library"""
+    out = set()
+    for f in r["records"]:
+        if f[0] == "allocsites" and len(f) > 1:
+            out |= set(("alloc", s) for s in f[1].split(",") if s)
+        elif f[0] == "ftrace" and len(f) > 4:
+            out.add((f[2], f[4]))
+    return out
+
+
 def corpus_cases():
     out = []
     for p in sorted(glob.glob(os.path.join(VERIF, "corpus", "C16", "*.json"))):
@@ -135,23 +146,23 @@ def check(run):
         if i % (4 if quick else 1) == 0:
             jobs.append((label, ini, "nts", 3, None))
     gencfg = []
-    for i in range(30 if quick else 400):
+    for i in range(40 if quick else 3000):
         ini, kind = gen_config(rng, volatile=True)
         if ini is None:
             ini = b"[snoopy]\n" + gen_config(rng, volatile=True, force=["message_format", "output"])[0]
         gencfg.append(("gen-%d:%s" % (i, kind), ini))
-        jobs.append(("gen-%d:%s" % (i, kind), ini, "ts" if i % 3 else "nts", rng.choice([2, 3, 5] if quick else [2, 5, 20]), None))
+        jobs.append(("gen-%d:%s" % (i, kind), ini, "ts" if i % 3 else "nts", rng.choice([2, 3, 5] if quick else [2, 5, 20, 60]), None))
     # long runs: 200 calls (quick: two configurations), 50 calls
-    longs = [syscfg[0], gencfg[0], gencfg[1]] + ([] if quick else gencfg[2:12] + syscfg[::7])
+    longs = [syscfg[0], gencfg[0], gencfg[1]] + ([] if quick else gencfg[2:40] + syscfg[::3])
     for j, (label, ini) in enumerate(longs):
-        jobs.append(("long:" + label, ini, "ts" if j % 2 == 0 else "nts", 200 if j < (2 if quick else 6) else 50, None))
+        jobs.append(("long:" + label, ini, "ts" if j % 2 == 0 else "nts", 200 if j < (2 if quick else 20) else 50, None))
 
     def job(a):
         idx, (label, ini, v, ncalls, fault) = a
         script = script_for(ini, ncalls, rng)
         r = run_life(run, libs[v], script, "c16-%d" % idx, fault=fault, timeout=300)
         finds, n = judge(run, libs[v], r, 2 if fault else 1, label, ini, fault)
-        return (label, ini, v, ncalls, fault, script, finds, n)
+        return (label, ini, v, ncalls, fault, script, finds, n, set(x for x in observed_sites(r)))
     results = run_many(job, list(enumerate(jobs)), workers=8)
 
     # ---- single injected faults: trace the library's libc-boundary calls of one call, then fail each position
@@ -165,10 +176,12 @@ def check(run):
         script = script_for(ini, 1, rng)
         r = run_life(run, libs["ts"], script, "c16-tr-%d" % i, trace=True, timeout=120)
         _, _, _, tr = phases(r["records"])
-        return (label, ini, tr.get(1, []))
+        return (label, ini, tr.get(1, []), observed_sites(r))
     traces = run_many(trace_job, list(enumerate(fault_cfgs)), workers=8)
     fjobs = []
-    for (label, ini, tr) in traces:
+    tsites = set()
+    for (label, ini, tr, st) in traces:
+        tsites |= st
         seen = set()
         for (fn, k) in tr:
             if fn in FAULT_ERRNO and (fn, k) not in seen and (not quick or k <= 2):
@@ -185,7 +198,9 @@ def check(run):
     distinct = set()
     seen_sig = set()
     faults_fired = 0
-    for (label, ini, v, ncalls, fault, script, finds, n) in results + fresults:
+    sites = {"ts": set(tsites), "nts": set()}
+    for (label, ini, v, ncalls, fault, script, finds, n, st) in results + fresults:
+        sites[v] |= st
         nsamples += n
         nruns += 1
         distinct.add((label.split(":", 1)[-1] if label.startswith("gen-") else label, v, fault))
@@ -199,6 +214,18 @@ def check(run):
             rep = {"variant": v, "config": ini.decode("latin-1"), "fault": fault, "calls": ncalls, "script": script, "label": label,
                    "failing_input": dict({"variant": v, "configuration": ini.decode("latin-1"), "injected_fault": fault, "calls_after_warm_up": ncalls}, **extra)}
             run.violation(full, "spec_violation", detail, rep)
+    # cross-check of the translator: every allocation / descriptor acquisition OBSERVED in the library comes from a function the analysis treats as resource-touching
+    acq = {"alloc", "fopen", "open", "socket"}
+    nsites = 0
+    for v in ("ts", "nts"):
+        want = sorted(set(s for (k, s) in sites[v] if k in acq))
+        fmap = site_functions(libs[v], want)
+        nsites += len(fmap)
+        for st, fn in sorted(fmap.items()):
+            if fn not in info["touching"] and "corr:unmodelled-acquisition" not in seen_sig:
+                seen_sig.add("corr:unmodelled-acquisition")
+                run.violation("corr:unmodelled-acquisition", "correspondence", "an acquisition observed at run time at %s is made by %s, which the translator does not list among the functions that reach an acquisition/release function"
+                              % (addr2line(libs[v], st), fn), {"failing_input": {"site": addr2line(libs[v], st), "function": fn, "variant": v}})
     ok, failed, log = fp.result()
     if not ok:
         diag = coq_query(run, "Diag_C16",
@@ -219,10 +246,10 @@ def check(run):
                 "after return of every call after the warm-up; configurations: one per data source, filter (x5 argument shapes) and output (x4) of the registries, generated mixes of every option "
                 "incl. invalid / duplicate / corrupted, long runs of 200 and 50 calls; single faults: every libc-boundary call the library makes during one call (traced) failed in turn; "
                 "evaluations = sampling points compared; distinct = distinct (configuration, build, fault) runs",
-        "samples": [{"label": l, "variant": v, "fault": f, "config": ini.decode("latin-1")[:200]} for (l, ini, v, _, f, _, _, _) in (results[:2] + fresults[:2])],
+        "samples": [{"label": l, "variant": v, "fault": f, "config": ini.decode("latin-1")[:200]} for (l, ini, v, _, f, _, _, _, _) in (results[:2] + fresults[:2])],
         "distribution": {"runs": nruns, "sampling_points": nsamples, "fault_runs": faults_fired, "data_sources": len(ds), "filters": len(fl), "outputs": len(out),
                          "library_functions": info["functions"], "functions_with_skeleton": info["skeletons"], "external_calls": len(ext),
-                         "max_calls_in_a_run": max(j[3] for j in jobs) if jobs else 0},
+                         "max_calls_in_a_run": max(j[3] for j in jobs) if jobs else 0, "acquisition_sites_observed_and_matched": nsites},
         "traces_validated_against_impl": nsamples,
     })
     return run.finish(level="proof",
